@@ -395,6 +395,8 @@ class File(resource.Resource, filepath.FilePath[str]):
                 # both is invalid.
                 raise ValueError(f"Invalid Byte-Range: {byteRange!r}")
             parsedRanges.append((start, end))
+        if not parsedRanges:
+            raise ValueError("No Byte-Range given")
         return parsedRanges
 
     def _rangeToOffsetAndSize(self, start, end):
@@ -428,7 +430,7 @@ class File(resource.Resource, filepath.FilePath[str]):
         """
         size = self.getFileSize()
         if start is None:
-            start = size - end
+            start = max(0, size - end)
             end = size
         elif end is None:
             end = size
